@@ -224,12 +224,14 @@ void do_catch (const char *p, unsigned short new_pc_offset) {
       /* if it's too deep or max eval, we can't let them catch it */
       if (get_error_state (ES_MAX_EVAL_COST))
         {
-          pop_context (&econ);
+          pop_context (&econ); /* also clears the error state ... */
+          set_error_state (ES_MAX_EVAL_COST); /* ... which an enclosing catch must still see */
           error ("*Can't catch eval cost too big error.");
         }
       if (get_error_state (ES_STACK_FULL))
         {
-          pop_context (&econ);
+          pop_context (&econ); /* also clears the error state ... */
+          set_error_state (ES_STACK_FULL); /* ... which an enclosing catch must still see */
           error ("*Can't catch too deep recursion error.");
         }
     }
